@@ -731,10 +731,20 @@ func (f *fnCtx) call(c *ast.CallExpr, stmt bool) string {
 		if eff {
 			var ia []string
 			for _, a := range c.Args {
-				ak := f.kindOf(a)
+				ak := f.g.classifySafe(f.typeOf(a))
 				switch ak.k {
 				case kNat, kInt, kBig, kSdk, kDec:
 					ia = append(ia, f.asInt(a))
+				case kBytes:
+					// bytes built from integers (a store key, an encoded counter): the integers
+					if kc, ok := a.(*ast.CallExpr); ok {
+						for _, ka := range kc.Args {
+							switch f.g.classifySafe(f.typeOf(ka)).k {
+							case kNat, kInt:
+								ia = append(ia, f.asInt(ka))
+							}
+						}
+					}
 				}
 			}
 			f.effect(types.ExprString(&ast.Ident{Name: f.nameOfRootGo(p.root)})+"."+name, ia)
@@ -834,6 +844,10 @@ func (f *fnCtx) pkgCall(path, name string, c *ast.CallExpr) string {
 		return "(1 : Int)"
 	case "cosmossdk.io/math.NewIntFromBigInt":
 		return f.partial("Go.sdkInt " + arg(0))
+	case "github.com/cosmos/cosmos-sdk/types.BigEndianToUint64":
+		return "(Go.beToU64 " + arg(0) + ")"
+	case "github.com/cosmos/cosmos-sdk/types.Uint64ToBigEndian":
+		return "(Go.u64ToBe " + arg(0) + ")"
 	case "github.com/cosmos/cosmos-sdk/types.NewCoin":
 		return f.partial("Go.newCoin " + arg(0) + " " + arg(1))
 	case "github.com/cosmos/cosmos-sdk/types.NewCoins":
